@@ -69,6 +69,17 @@ func c11Paths(repr string, ok bool, want []byte) (string, string) {
 	r1 := &c11Recorder{}
 	_, _ = eval.DecryptSecrets(context.Background(), "doc", doc, r1)
 	p1 := judge(r1)
+	if p1 == "same" {
+		// the same through a document in which the key is spelled with a YAML escape only (no literal "fn::secret" text)
+		doc2 := []byte("values:\n  s:\n    \"fn::\\u0073ecret\":\n      ciphertext: " + string(q) + "\n  t:\n    \"fn\\x3a:secret\":\n      ciphertext: " + c11OtherQ + "\n")
+		r1b := &c11Recorder{}
+		_, _ = eval.DecryptSecrets(context.Background(), "doc", doc2, r1b)
+		if ok && len(r1b.copies) == 0 {
+			p1 = "escaped-key-document-never-reached-the-decrypter"
+		} else if pb := judge(r1b); pb != "same" {
+			p1 = "escaped-key:" + pb
+		}
+	}
 	p2 := "skip"
 	env, diags, err := eval.LoadYAMLBytes("doc", doc)
 	if err == nil && !diags.HasErrors() {
